@@ -31,6 +31,14 @@ pub struct GenOpts {
     pub phantom: bool,
     /// skipped type params
     pub skipped: bool,
+    /// `S: BitStore` / `O: BitOrder` parameters used as `BitVec<S, O>`
+    pub bit_params: bool,
+    /// path-qualified spelling of std/codec types in the source (`codec::Compact<T>`, `alloc::boxed::Box<T>`)
+    pub qualified_names: bool,
+    /// two-version definitions that are a copy of the first version with ONE mutation (near misses)
+    pub near_miss: bool,
+    /// `#[codec(compact)] f: ()` and `Compact<()>` (`()` is HasCompact, its encoding is empty)
+    pub compact_unit: bool,
     /// skipped parameters may occur in field types (needs custom bounds in real Rust; behaves
     /// like an associated type). Off: skipped parameters occur only in PhantomData fields.
     pub skipped_in_fields: bool,
@@ -60,6 +68,10 @@ impl GenOpts {
             manual_prims: false,
             phantom: true,
             skipped: true,
+            bit_params: true,
+            qualified_names: true,
+            near_miss: true,
+            compact_unit: true,
             skipped_in_fields: false,
             ord_keys_only: false,
             other_ptrs: true,
@@ -112,6 +124,8 @@ struct Header {
     path: Vec<String>,
     params: Vec<ParamDecl>,
     is_config: bool,
+    /// body = body of that earlier definition with one mutation
+    clone_of: Option<usize>,
 }
 
 pub struct Generated {
@@ -205,7 +219,7 @@ impl<'t, 'a> G<'t, 'a> {
             .params
             .iter()
             .enumerate()
-            .filter(|(_, p)| !p.config && (!p.skipped || self.o.skipped_in_fields))
+            .filter(|(_, p)| !p.config && !p.bitstore && !p.bitorder && (!p.skipped || self.o.skipped_in_fields))
             .map(|(i, _)| i)
             .collect()
     }
@@ -218,6 +232,30 @@ impl<'t, 'a> G<'t, 'a> {
             .filter(|(_, p)| p.compactable)
             .map(|(i, _)| i)
             .collect()
+    }
+
+    /// an argument for a `S: BitStore` (store = true) or `O: BitOrder` parameter position
+    fn bit_arg(&mut self, store: bool, c: Ctx) -> Ty {
+        let mine: Vec<usize> = self.headers[c.cur]
+            .params
+            .iter()
+            .enumerate()
+            .filter(|(_, p)| if store { p.bitstore } else { p.bitorder })
+            .map(|(i, _)| i)
+            .collect();
+        if !c.closed && !c.root_args && !mine.is_empty() && self.t.chance(180) {
+            return Ty::Param(mine[self.t.choose(mine.len())]);
+        }
+        if store {
+            let all = [Prim::U8, Prim::U16, Prim::U32, Prim::U64];
+            let pool: Vec<Prim> = self.arg_prims.iter().copied().filter(|p| all.contains(p)).collect();
+            if c.root_args && !pool.is_empty() {
+                return Ty::Prim(pool[self.t.choose(pool.len())]);
+            }
+            Ty::Prim(all[self.t.choose(4)])
+        } else {
+            Ty::BitOrder(self.t.flag())
+        }
     }
 
     /// an argument for a `T: HasCompact` parameter position
@@ -270,6 +308,9 @@ impl<'t, 'a> G<'t, 'a> {
                 }
             } else if self.headers[d].params[i].compactable {
                 let a = self.compactable_arg(c);
+                out.push(a);
+            } else if self.headers[d].params[i].bitstore || self.headers[d].params[i].bitorder {
+                let a = self.bit_arg(self.headers[d].params[i].bitstore, c);
                 out.push(a);
             } else {
                 let cc = Ctx {
@@ -413,6 +454,11 @@ impl<'t, 'a> G<'t, 'a> {
                 out.push(a);
                 continue;
             }
+            if self.headers[d].params[i].bitstore || self.headers[d].params[i].bitorder {
+                let a = self.bit_arg(self.headers[d].params[i].bitstore, Ctx { closed: true, ..c });
+                out.push(a);
+                continue;
+            }
             let mut tries = 0;
             loop {
                 let leaf = |g: &mut Self| {
@@ -493,7 +539,7 @@ impl<'t, 'a> G<'t, 'a> {
             3 => {
                 self.labels.insert("cow");
                 match self.t.weighted(&[3, 2, 2]) {
-                    0 => Ty::Cow(Box::new(Ty::Prim(Prim::Str))),
+                    0 => Ty::Cow(Box::new(Ty::StrSlice)),
                     1 => {
                         let cc = if o.cow_param { sub(true) } else { Ctx { closed: true, ..sub(true) } };
                         let inner = self.ty(cc);
@@ -569,17 +615,32 @@ impl<'t, 'a> G<'t, 'a> {
                     let w = self.wrappers[self.t.choose(self.wrappers.len())];
                     Ty::Compact(Box::new(Ty::Def(w, vec![])))
                 } else {
-                    Ty::Compact(Box::new(Ty::Prim(self.uint())))
+                    if self.o.compact_unit && self.t.chance(30) {
+                        self.labels.insert("compact_unit");
+                        Ty::Compact(Box::new(Ty::Tuple(vec![])))
+                    } else {
+                        Ty::Compact(Box::new(Ty::Prim(self.uint())))
+                    }
                 }
             }
             10 => {
                 self.labels.insert("bitvec");
                 let store = self.from_pool(&[Prim::U8, Prim::U16, Prim::U32, Prim::U64]);
-                Ty::BitVec(store, self.t.flag())
+                let msb = self.t.flag();
+                let sp: Vec<usize> = self.headers[c.cur].params.iter().enumerate().filter(|(_, p)| p.bitstore).map(|(i, _)| i).collect();
+                let op: Vec<usize> = self.headers[c.cur].params.iter().enumerate().filter(|(_, p)| p.bitorder).map(|(i, _)| i).collect();
+                if !c.closed && (!sp.is_empty() || !op.is_empty()) && self.t.chance(200) {
+                    self.labels.insert("bitvec_over_parameter");
+                    let s = if !sp.is_empty() { Ty::Param(sp[self.t.choose(sp.len())]) } else { Ty::Prim(store) };
+                    let o = if !op.is_empty() { Ty::Param(op[self.t.choose(op.len())]) } else { Ty::BitOrder(msb) };
+                    Ty::BitVecP(Box::new(s), Box::new(o))
+                } else {
+                    Ty::BitVec(store, msb)
+                }
             }
             _ => {
                 if self.t.flag() {
-                    Ty::Ptr(PtrKind::Ref, Box::new(Ty::Prim(Prim::Str)))
+                    Ty::Ptr(PtrKind::Ref, Box::new(Ty::StrSlice))
                 } else {
                     self.labels.insert("box");
                     Ty::Ptr(
@@ -618,6 +679,27 @@ impl<'t, 'a> G<'t, 'a> {
                     1 => Ty::Seq(SeqKind::Vec, Box::new(a)),
                     _ => Ty::Tuple(vec![a, Ty::Prim(self.prim(false))]),
                 }
+            } else if self.headers[cur].params.iter().any(|p| p.bitstore || p.bitorder) && self.t.chance(110) {
+                self.labels.insert("bitvec_over_parameter");
+                let sp: Vec<usize> = self.headers[cur].params.iter().enumerate().filter(|(_, p)| p.bitstore).map(|(i, _)| i).collect();
+                let op: Vec<usize> = self.headers[cur].params.iter().enumerate().filter(|(_, p)| p.bitorder).map(|(i, _)| i).collect();
+                let s = if !sp.is_empty() && (op.is_empty() || self.t.chance(200)) {
+                    Ty::Param(sp[self.t.choose(sp.len())])
+                } else {
+                    Ty::Prim(self.from_pool(&[Prim::U8, Prim::U16, Prim::U32, Prim::U64]))
+                };
+                let o = if !op.is_empty() && (!matches!(s, Ty::Param(_)) || self.t.chance(200)) {
+                    Ty::Param(op[self.t.choose(op.len())])
+                } else {
+                    Ty::BitOrder(self.t.flag())
+                };
+                let b = Ty::BitVecP(Box::new(s), Box::new(o));
+                match self.t.weighted(&[4, 1, 1, 1]) {
+                    0 => b,
+                    1 => Ty::Seq(SeqKind::Vec, Box::new(b)),
+                    2 => Ty::Tuple(vec![b, Ty::Prim(self.prim(false))]),
+                    _ => Ty::Opt(Box::new(b)),
+                }
             } else if self.o.phantom && !self.headers[cur].params.is_empty() && self.t.chance(30) {
                 self.labels.insert("phantom_field");
                 let ps = &self.headers[cur].params;
@@ -634,6 +716,9 @@ impl<'t, 'a> G<'t, 'a> {
                     self.labels.insert("compact_wrapper");
                     let w = self.wrappers[self.t.choose(self.wrappers.len())];
                     Ty::Def(w, vec![])
+                } else if self.o.compact_unit && self.t.chance(30) {
+                    self.labels.insert("compact_unit");
+                    Ty::Tuple(vec![])
                 } else {
                     Ty::Prim(self.uint())
                 }
@@ -704,6 +789,210 @@ impl<'t, 'a> G<'t, 'a> {
             Body::Enum(vs)
         }
     }
+}
+
+/// one small mutation of a definition body: the result has (almost always) a different SCALE shape
+fn mutate_body(t: &mut Tape, b: &Body, prims: &[Vec<ParamDecl>]) -> Body {
+    fn mutate_ty(t: &mut Tape, ty: &mut Ty, prims: &[Vec<ParamDecl>]) -> bool {
+        // try to mutate this node, else descend
+        match ty {
+            Ty::Prim(p) => {
+                let other: Vec<Prim> = Prim::RUST.iter().copied().filter(|q| q != p && *q != Prim::Char).collect();
+                                *p = other[t.choose(other.len())];
+                true
+            }
+            Ty::Tuple(v) => {
+                if t.flag() && !v.is_empty() {
+                    v.pop();
+                } else {
+                    v.push(Ty::Prim(Prim::U8));
+                }
+                true
+            }
+            Ty::Array(n, _) => {
+                *n += 1;
+                true
+            }
+            Ty::BitVec(s, m) => {
+                if t.flag() {
+                    *m = !*m;
+                } else {
+                    *s = if *s == Prim::U8 { Prim::U16 } else { Prim::U8 };
+                }
+                true
+            }
+            Ty::Compact(inner) => {
+                let i = (**inner).clone();
+                *ty = i;
+                true
+            }
+            Ty::Opt(inner) => {
+                let i = (**inner).clone();
+                *ty = Ty::Res(Box::new(i.clone()), Box::new(i));
+                true
+            }
+            Ty::Range(inner) | Ty::RangeIncl(inner) => {
+                if t.chance(60) {
+                    let i = (**inner).clone();
+                    *ty = Ty::Opt(Box::new(i));
+                    true
+                } else {
+                    mutate_ty(t, inner, prims)
+                }
+            }
+            // keep the heap indirection (the element may be what makes a recursive type finite)
+            Ty::Seq(_, inner) | Ty::Ptr(_, inner) | Ty::Set(inner) | Ty::Heap(inner) => {
+                if t.chance(60) && !matches!(**inner, Ty::StrSlice | Ty::Seq(SeqKind::Slice, _)) {
+                    let i = (**inner).clone();
+                    **inner = Ty::Opt(Box::new(i));
+                    true
+                } else {
+                    mutate_ty(t, inner, prims)
+                }
+            }
+            Ty::Cow(inner) => mutate_ty(t, inner, prims),
+            Ty::Res(a, _) | Ty::Map(a, _) => mutate_ty(t, a, prims),
+            Ty::Def(d, args) => {
+                // only arguments of unconstrained parameters can be changed freely
+                let free: Vec<usize> = (0..args.len())
+                    .filter(|i| {
+                        let p = &prims[*d][*i];
+                        !p.config && !p.compactable && !p.bitstore && !p.bitorder
+                    })
+                    .collect();
+                if free.is_empty() {
+                    false
+                } else {
+                    let i = free[t.choose(free.len())];
+                    mutate_ty(t, &mut args[i], prims)
+                }
+            }
+            _ => false,
+        }
+    }
+    fn mutate_fields(t: &mut Tape, f: &mut Fields, prims: &[Vec<ParamDecl>]) -> bool {
+        let Some(list) = f.list_mut() else {
+            *f = Fields::Unnamed(vec![FieldDef { name: None, ty: Ty::Prim(Prim::U8), compact_attr: false, docs: vec![] }]);
+            return true;
+        };
+        if list.is_empty() {
+            return false;
+        }
+        let i = t.choose(list.len());
+        if list[i].compact_attr {
+            // `#[codec(compact)]` needs a HasCompact type: another unsigned integer, or drop the attribute
+            if let Ty::Prim(p) = &mut list[i].ty {
+                if t.flag() {
+                    *p = if *p == Prim::U32 { Prim::U64 } else { Prim::U32 };
+                    return true;
+                }
+            }
+            list[i].compact_attr = false;
+            return true;
+        }
+        match t.weighted(&[6, 1, 1, 1, 1]) {
+            0 => {
+                if mutate_ty(t, &mut list[i].ty, prims) {
+                    return true;
+                }
+                list[i].ty = Ty::Tuple(vec![list[i].ty.clone()]);
+                true
+            }
+            1 => {
+                if let Some(n) = list[i].name.clone() {
+                    let mut name = format!("{n}_v2");
+                    while list.iter().any(|f| f.name.as_deref() == Some(name.as_str())) {
+                        name.push('x');
+                    }
+                    list[i].name = Some(name);
+                    true
+                } else {
+                    list.push(FieldDef { name: None, ty: Ty::Prim(Prim::Bool), compact_attr: false, docs: vec![] });
+                    true
+                }
+            }
+            2 => {
+                if list.len() >= 2 {
+                    list.swap(0, 1);
+                    true
+                } else {
+                    false
+                }
+            }
+            3 => {
+                list.remove(i);
+                true
+            }
+            _ => {
+                // compact attribute on / off for unsigned integer fields
+                if matches!(list[i].ty, Ty::Prim(p) if p.is_uint()) {
+                    list[i].compact_attr = !list[i].compact_attr;
+                    true
+                } else {
+                    false
+                }
+            }
+        }
+    }
+    let mut out = b.clone();
+    for _ in 0..4 {
+        let done = match &mut out {
+            Body::Struct(f) => mutate_fields(t, f, prims),
+            Body::Enum(vs) => {
+                if vs.is_empty() {
+                    vs.push(VariantDef { name: "Added".into(), index: 0, fields: Fields::Unit, docs: vec![] });
+                    true
+                } else {
+                    let i = t.choose(vs.len());
+                    match t.weighted(&[4, 2, 1, 1, 1]) {
+                        0 => mutate_fields(t, &mut vs[i].fields, prims),
+                        1 => {
+                            // only the index differs
+                            let used: Vec<u8> = vs.iter().map(|v| v.index).collect();
+                            let mut n = vs[i].index.wrapping_add(1 + t.choose(100) as u8);
+                            while used.contains(&n) {
+                                n = n.wrapping_add(1);
+                            }
+                            vs[i].index = n;
+                            true
+                        }
+                        2 => {
+                            let mut name = format!("{}V2", vs[i].name);
+                            while vs.iter().any(|v| v.name == name) {
+                                name.push('X');
+                            }
+                            vs[i].name = name;
+                            true
+                        }
+                        3 => {
+                            let mut n = 200u8;
+                            while vs.iter().any(|v| v.index == n) {
+                                n = n.wrapping_add(1);
+                            }
+                            let mut name = "AddedVariant".to_string();
+                            while vs.iter().any(|v| v.name == name) {
+                                name.push('X');
+                            }
+                            vs.push(VariantDef { name, index: n, fields: Fields::Unit, docs: vec![] });
+                            true
+                        }
+                        _ => {
+                            if vs.len() >= 2 {
+                                vs.remove(i);
+                                true
+                            } else {
+                                false
+                            }
+                        }
+                    }
+                }
+            }
+        };
+        if done {
+            break;
+        }
+    }
+    out
 }
 
 pub fn gen_program(t: &mut Tape, o: &GenOpts) -> Generated {
@@ -781,6 +1070,7 @@ pub fn gen_program(t: &mut Tape, o: &GenOpts) -> Generated {
                 path: p,
                 params: vec![],
                 is_config: true,
+                clone_of: None,
             });
         }
     }
@@ -789,9 +1079,14 @@ pub fn gen_program(t: &mut Tape, o: &GenOpts) -> Generated {
         let m = g.t.choose(mods.len());
         let first_user = g.config_defs.len();
         let reuse = sw_two && g.headers.len() > first_user && g.t.chance(70);
+        let mut clone_of = None;
         let path = if reuse {
             g.labels.insert("two_versions");
             let k = first_user + g.t.choose(g.headers.len() - first_user);
+            if o.near_miss && g.t.chance(150) {
+                g.labels.insert("near_miss_version");
+                clone_of = Some(k);
+            }
             g.headers[k].path.clone()
         } else {
             let mut nm = if sw_look && g.t.chance(90) {
@@ -813,6 +1108,16 @@ pub fn gen_program(t: &mut Tape, o: &GenOpts) -> Generated {
             used_paths.insert(p.clone());
             p
         };
+        if let Some(k) = clone_of {
+            let params = g.headers[k].params.clone();
+            g.headers.push(Header {
+                path,
+                params,
+                is_config: false,
+                clone_of,
+            });
+            continue;
+        }
         let np = g.t.weighted(&[5, 4, 2, 1][..(o.max_params + 1).min(4)]);
         let mut params = vec![];
         for i in 0..np {
@@ -826,17 +1131,25 @@ pub fn gen_program(t: &mut Tape, o: &GenOpts) -> Generated {
             if compactable {
                 g.labels.insert("compactable_param");
             }
+            let bitstore = !config && !skipped && !compactable && o.bits && o.bit_params && g.t.chance(25);
+            let bitorder = !config && !skipped && !compactable && !bitstore && o.bits && o.bit_params && g.t.chance(20);
+            if bitstore || bitorder {
+                g.labels.insert("bit_store_or_order_param");
+            }
             params.push(ParamDecl {
                 name: PARAM_NAMES[i].to_string(),
                 skipped,
                 config,
                 compactable,
+                bitstore,
+                bitorder,
             });
         }
         g.headers.push(Header {
             path,
             params,
             is_config: false,
+            clone_of: None,
         });
     }
 
@@ -858,6 +1171,19 @@ pub fn gen_program(t: &mut Tape, o: &GenOpts) -> Generated {
                 config_inner: Some(inner),
             });
             g.bodies.push(Body::Struct(Fields::Unit));
+            continue;
+        }
+        if let Some(k) = g.headers[i].clone_of {
+            let decls: Vec<Vec<ParamDecl>> = g.headers.iter().map(|h| h.params.clone()).collect();
+            let body = mutate_body(g.t, &g.bodies[k], &decls);
+            defs.push(Def {
+                path: g.headers[i].path.clone(),
+                params: g.headers[i].params.clone(),
+                docs: defs[k].docs.clone(),
+                body: body.clone(),
+                config_inner: None,
+            });
+            g.bodies.push(body);
             continue;
         }
         // occasionally force a single-uint wrapper struct (CompactAs candidates)
@@ -907,6 +1233,17 @@ pub fn gen_program(t: &mut Tape, o: &GenOpts) -> Generated {
                 if p.config {
                     let k = g.config_defs[g.t.choose(g.config_defs.len())];
                     args.push(Ty::Def(k, vec![]));
+                } else if p.bitstore || p.bitorder {
+                    let c = Ctx {
+                        cur: i,
+                        heap: false,
+                        depth: 1,
+                        in_args: true,
+                        closed: true,
+                        root_args: true,
+                    };
+                    let a = g.bit_arg(p.bitstore, c);
+                    args.push(a);
                 } else if p.compactable {
                     let c = Ctx {
                         cur: i,
@@ -982,9 +1319,15 @@ pub fn gen_program(t: &mut Tape, o: &GenOpts) -> Generated {
         roots.push(r);
     }
 
+    let name_style = if o.qualified_names && g.t.chance(60) {
+        g.labels.insert("qualified_type_names");
+        1
+    } else {
+        0
+    };
     let labels = g.labels;
     Generated {
-        prog: Program { defs, roots },
+        prog: Program { defs, roots, name_style },
         labels,
         arg_prims,
     }
